@@ -37,6 +37,9 @@ P == INSTANCE LogHelperProps
 VARIABLES rate, haskalman, script,          \* configuration chosen by Setup
           pc, op, excbody, rres, si,        \* user thread; si = next script position
           bid, ladded, pendstart,           \* library: id of the helper's block (0 none), block.added, START to send
+          lccf,                             \* Log.add_config accepted the configuration (LogConfig.cf is set)
+          slock,                            \* Crazyflie._send_lock: "free" | "user" | "disp" (held by a thread that is
+                                            \* about to transmit; acquired at the end of its previous region if free)
           vals,                             \* ranger: the six properties (mm, -1 = None)
           window, syncq,                    \* estimator: history window, SyncLogger queue
           pq, pinfl, t1, now,               \* parameter writes queued / in flight, time of the first call, clock
@@ -44,9 +47,9 @@ VARIABLES rate, haskalman, script,          \* configuration chosen by Setup
           inq, link, ndata,
           obs, mon, bad
 
-vars == <<rate, haskalman, script, pc, op, excbody, rres, si, bid, ladded, pendstart, vals, window, syncq,
+vars == <<rate, haskalman, script, pc, op, excbody, rres, si, bid, ladded, pendstart, lccf, slock, vals, window, syncq,
           pq, pinfl, t1, now, dblk, inq, link, ndata, obs, mon, bad>>
-view == <<rate, haskalman, script, pc, op, excbody, rres, si, bid, ladded, pendstart, vals, window, syncq,
+view == <<rate, haskalman, script, pc, op, excbody, rres, si, bid, ladded, pendstart, lccf, slock, vals, window, syncq,
           pq, pinfl, t1, now, dblk, inq, link, ndata, mon, bad>>
 
 NoBlk == [id |-> 0, started |-> FALSE, per |-> 0]
@@ -60,7 +63,7 @@ Emit(ev) == /\ obs' = ev
 
 Init == /\ rate = 0 /\ haskalman = TRUE /\ script = <<>>
         /\ pc = "setup" /\ op = "" /\ excbody = FALSE /\ rres = "" /\ si = 1
-        /\ bid = 0 /\ ladded = FALSE /\ pendstart = FALSE
+        /\ bid = 0 /\ ladded = FALSE /\ pendstart = FALSE /\ lccf = FALSE /\ slock = "free"
         /\ vals = [j \in 1..6 |-> -1]
         /\ window = P!Window0 /\ syncq = <<>>
         /\ pq = <<>> /\ pinfl = FALSE /\ t1 = 0 /\ now = 0
@@ -71,7 +74,7 @@ Setup(r, hk, sc) ==
     /\ pc = "setup"
     /\ rate' = r /\ haskalman' = hk /\ script' = sc /\ pc' = "idle"
     /\ obs' = [E0 EXCEPT !.e = "setup"] /\ mon' = P!M0(Mode, r, hk) /\ bad' = bad
-    /\ UNCHANGED <<op, excbody, rres, si, bid, ladded, pendstart, vals, window, syncq, pq, pinfl, t1, now,
+    /\ UNCHANGED <<slock, lccf, op, excbody, rres, si, bid, ladded, pendstart, vals, window, syncq, pq, pinfl, t1, now,
                    dblk, inq, link, ndata>>
 
 \* ---- device -------------------------------------------------------------------------------
@@ -95,6 +98,11 @@ BugVars == CASE Bug = "swapLeftRight" -> [MyVars EXCEPT ![3] = MyVars[4], ![4] =
 Period == IF Mode = "ranger" THEN rate \div 10 ELSE 50
 
 \* ---- user thread ---------------------------------------------------------------------------
+\* thread `who` has just come to a point where it will transmit next: it takes _send_lock if it is free
+\* (otherwise it waits for it at the start of its transmission)
+Grab(who, wants) == slock' = IF wants /\ slock = "free" THEN who ELSE slock
+MayTx(who) == slock \in {"free", who}
+
 CanSet == haskalman /\ link = "up"
 
 Begin ==
@@ -102,8 +110,16 @@ Begin ==
     /\ LET o == script[si] IN
        /\ op' = (IF o = "exitexc" THEN "exit" ELSE o)
        /\ excbody' = (o = "exitexc")
-       /\ pc' = (IF o = "reset" THEN (IF CanSet THEN "call1" ELSE "end") ELSE "send")
-       /\ rres' = (IF o = "reset" /\ ~CanSet THEN "KeyError" ELSE "")
+       \* Log.add_config does nothing without a link and LogConfig.start()/delete() of a configuration
+       \* that was never accepted raise (its cf is None)
+       /\ pc' = CASE o = "reset" -> (IF CanSet THEN "call1" ELSE "end")
+                  [] o \in {"start", "enter"} -> (IF link = "up" THEN "send" ELSE "end")
+                  [] OTHER -> (IF lccf THEN "send" ELSE "end")
+       /\ rres' = CASE o = "reset" -> (IF CanSet THEN "" ELSE "KeyError")
+                    [] o \in {"start", "enter"} -> (IF link = "up" THEN "" ELSE "AttributeError")
+                    [] OTHER -> (IF lccf THEN "" ELSE "AttributeError")
+       /\ lccf' = (lccf \/ (o \in {"start", "enter"} /\ link = "up"))
+       /\ Grab("user", IF o \in {"start", "enter"} THEN link = "up" ELSE o # "reset" /\ lccf)
        /\ Emit([E0 EXCEPT !.e = "begin", !.op = (IF o = "exitexc" THEN "exit" ELSE o),
                           !.res = (IF o = "exitexc" THEN "exc" ELSE "")])
     /\ si' = si + 1
@@ -122,6 +138,8 @@ PCall(v, t) ==
     \* link that is already gone add_config() does nothing and LogConfig.start() raises (its cf is None)
     /\ pc' = (IF v = 1 /\ Bug # "noZeroWrite" THEN "sleep" ELSE IF link = "up" THEN "send" ELSE "end")
     /\ rres' = (IF (v = 0 \/ Bug = "noZeroWrite") /\ link # "up" THEN "AttributeError" ELSE rres)
+    /\ lccf' = (lccf \/ ((v = 0 \/ Bug = "noZeroWrite") /\ link = "up"))
+    /\ Grab("user", (v = 0 \/ Bug = "noZeroWrite") /\ link = "up")
     /\ Emit([E0 EXCEPT !.e = "pcall", !.v = v, !.t = t])
     /\ UNCHANGED <<rate, haskalman, script, op, excbody, si, bid, ladded, pendstart, vals, window, syncq, pinfl,
                    dblk, inq, link, ndata>>
@@ -133,17 +151,18 @@ SleepWake(dt) ==
     /\ pc' = (IF CanSet THEN "call0" ELSE "end")
     /\ rres' = (IF CanSet THEN rres ELSE "KeyError")
     /\ Emit([E0 EXCEPT !.e = "wake", !.t = t1 + dt])
-    /\ UNCHANGED <<rate, haskalman, script, op, excbody, si, bid, ladded, pendstart, vals, window, syncq, pq, pinfl, t1,
+    /\ UNCHANGED <<slock, lccf, rate, haskalman, script, op, excbody, si, bid, ladded, pendstart, vals, window, syncq, pq, pinfl, t1,
                    dblk, inq, link, ndata>>
 
 \* Log.add_config + LogConfig.start() -> create(): one CREATE_BLOCK_V2 message
 SendCreate ==
-    /\ pc = "send" /\ op \in {"start", "enter", "reset"} /\ link = "up"
+    /\ pc = "send" /\ op \in {"start", "enter", "reset"} /\ link = "up" /\ MayTx("user")
+    /\ slock' = "free"
     /\ bid' = bid + 1
     /\ DevCtl("create", bid + 1, 0)
     /\ pc' = (IF op = "reset" THEN "loop" ELSE "end")
     /\ Emit([E0 EXCEPT !.e = "ctl", !.cmd = "create", !.id = bid + 1, !.vars = BugVars])
-    /\ UNCHANGED <<rate, haskalman, script, op, excbody, rres, si, ladded, pendstart, vals, window, syncq, pq,
+    /\ UNCHANGED <<lccf, rate, haskalman, script, op, excbody, rres, si, ladded, pendstart, vals, window, syncq, pq,
                    pinfl, t1, now, link, ndata>>
 
 \* LogConfig.delete() (ranger: Multiranger.stop; estimator: SyncLogger.disconnect after stop)
@@ -151,19 +170,21 @@ SendDelete ==
     /\ link = "up" /\ bid # 0
     /\ \/ pc = "send" /\ op \in {"stop", "exit"}
        \/ pc = "delete"
-    /\ Bug # "noDelete"
+    /\ Bug # "noDelete" /\ MayTx("user")
+    /\ slock' = "free"
     /\ DevCtl("delete", bid, 0)
     /\ pc' = "end"
     /\ Emit([E0 EXCEPT !.e = "ctl", !.cmd = "delete", !.id = bid])
-    /\ UNCHANGED <<rate, haskalman, script, op, excbody, rres, si, bid, ladded, pendstart, vals, window, syncq, pq,
+    /\ UNCHANGED <<lccf, rate, haskalman, script, op, excbody, rres, si, bid, ladded, pendstart, vals, window, syncq, pq,
                    pinfl, t1, now, link, ndata>>
 
 SendStop ==
-    /\ pc = "stop" /\ link = "up"
+    /\ pc = "stop" /\ link = "up" /\ MayTx("user")
+    /\ slock' = "user"            \* released and taken again at once for the delete message
     /\ DevCtl("stop", bid, 0)
     /\ pc' = "delete"
     /\ Emit([E0 EXCEPT !.e = "ctl", !.cmd = "stop", !.id = bid])
-    /\ UNCHANGED <<rate, haskalman, script, op, excbody, rres, si, bid, ladded, pendstart, vals, window, syncq, pq,
+    /\ UNCHANGED <<lccf, rate, haskalman, script, op, excbody, rres, si, bid, ladded, pendstart, vals, window, syncq, pq,
                    pinfl, t1, now, link, ndata>>
 
 \* the estimator loop takes the next item of the SyncLogger queue
@@ -176,9 +197,10 @@ UTake ==
        IN /\ window' = w
           /\ pc' = IF s = DISC THEN "end"
                    ELSE IF leave THEN (IF link = "up" THEN "stop" ELSE "end") ELSE "loop"
+          /\ Grab("user", s # DISC /\ leave /\ link = "up")
           /\ Emit([E0 EXCEPT !.e = "take", !.vals = s])
     /\ syncq' = Tail(syncq)
-    /\ UNCHANGED <<rate, haskalman, script, op, excbody, rres, si, bid, ladded, pendstart, vals, pq, pinfl, t1,
+    /\ UNCHANGED <<lccf, rate, haskalman, script, op, excbody, rres, si, bid, ladded, pendstart, vals, pq, pinfl, t1,
                    now, dblk, inq, link, ndata>>
 
 EndRes == IF rres # "" THEN rres
@@ -193,16 +215,17 @@ End ==
     /\ pc' = "idle"
     /\ Emit([E0 EXCEPT !.e = "end", !.op = op, !.res = EndRes])
     /\ op' = ""
-    /\ UNCHANGED <<rate, haskalman, script, excbody, rres, si, bid, ladded, pendstart, vals, window, syncq, pq, pinfl,
+    /\ UNCHANGED <<slock, lccf, rate, haskalman, script, excbody, rres, si, bid, ladded, pendstart, vals, window, syncq, pq, pinfl,
                    t1, now, dblk, inq, link, ndata>>
 
 \* ---- updater ------------------------------------------------------------------------------
 PTx ==
-    /\ pq # <<>> /\ ~pinfl /\ link = "up"
+    /\ pq # <<>> /\ ~pinfl /\ link = "up" /\ slock = "free"
+    /\ slock' = "free"
     /\ pq' = Tail(pq) /\ pinfl' = TRUE
     /\ inq' = Append(inq, [t |-> "prx", cmd |-> "", id |-> 0, st |-> 0, vals |-> <<Head(pq)>>])
     /\ Emit([E0 EXCEPT !.e = "pset", !.v = Head(pq)])
-    /\ UNCHANGED <<rate, haskalman, script, pc, op, excbody, rres, si, bid, ladded, pendstart, vals, window, syncq,
+    /\ UNCHANGED <<lccf, rate, haskalman, script, pc, op, excbody, rres, si, bid, ladded, pendstart, vals, window, syncq,
                    t1, now, dblk, link, ndata>>
 
 \* ---- dispatcher ---------------------------------------------------------------------------
@@ -210,7 +233,7 @@ DispP ==
     /\ inq # <<>> /\ Head(inq).t = "prx" /\ ~pendstart
     /\ inq' = Tail(inq) /\ pinfl' = FALSE
     /\ Emit([E0 EXCEPT !.e = "prx", !.v = Head(inq).vals[1]])
-    /\ UNCHANGED <<rate, haskalman, script, pc, op, excbody, rres, si, bid, ladded, pendstart, vals, window, syncq,
+    /\ UNCHANGED <<slock, lccf, rate, haskalman, script, pc, op, excbody, rres, si, bid, ladded, pendstart, vals, window, syncq,
                    pq, t1, now, dblk, link, ndata>>
 
 DispAck ==
@@ -219,18 +242,20 @@ DispAck ==
        /\ inq' = Tail(inq)
        /\ pendstart' = (a.cmd = "create" /\ a.id = bid /\ a.st \in {0, 17} /\ ~ladded /\ link = "up")
        /\ ladded' = IF a.cmd = "delete" /\ a.id = bid /\ a.st \in {0, 2} THEN FALSE ELSE ladded
+       /\ Grab("disp", a.cmd = "create" /\ a.id = bid /\ a.st \in {0, 17} /\ ~ladded /\ link = "up")
        /\ Emit([E0 EXCEPT !.e = "ack", !.cmd = a.cmd, !.id = a.id, !.st = a.st])
-    /\ UNCHANGED <<rate, haskalman, script, pc, op, excbody, rres, si, bid, vals, window, syncq, pq, pinfl, t1, now,
+    /\ UNCHANGED <<lccf, rate, haskalman, script, pc, op, excbody, rres, si, bid, vals, window, syncq, pq, pinfl, t1, now,
                    dblk, link, ndata>>
 
 \* Log._new_packet_cb on a successful create ack: START_LOGGING is sent from the dispatcher, then block.added = True
 SendStart ==
-    /\ pendstart /\ link = "up"
+    /\ pendstart /\ link = "up" /\ MayTx("disp")
+    /\ slock' = "free"
     /\ pendstart' = FALSE /\ ladded' = TRUE
     /\ DevCtl("start", bid, Period)
     /\ Emit([E0 EXCEPT !.e = "ctl", !.cmd = "start", !.id = bid,
                        !.per = (IF Bug = "period" THEN Period * 10 ELSE Period)])
-    /\ UNCHANGED <<rate, haskalman, script, pc, op, excbody, rres, si, bid, vals, window, syncq, pq, pinfl, t1, now,
+    /\ UNCHANGED <<lccf, rate, haskalman, script, pc, op, excbody, rres, si, bid, vals, window, syncq, pq, pinfl, t1, now,
                    link, ndata>>
 
 RConv(v) == CASE Bug = "limit" -> IF v > 8000 THEN -1 ELSE v
@@ -248,7 +273,7 @@ DispData ==
                       THEN Append(syncq, d.vals) ELSE syncq
           /\ Emit([E0 EXCEPT !.e = "data", !.id = d.id, !.vals = d.vals,
                              !.read = (IF Mode = "ranger" THEN nv ELSE <<>>)])
-    /\ UNCHANGED <<rate, haskalman, script, pc, op, excbody, rres, si, bid, ladded, pendstart, window, pq, pinfl, t1,
+    /\ UNCHANGED <<slock, lccf, rate, haskalman, script, pc, op, excbody, rres, si, bid, ladded, pendstart, window, pq, pinfl, t1,
                    now, dblk, link, ndata>>
 
 \* ---- environment --------------------------------------------------------------------------
@@ -257,7 +282,7 @@ EmitData(v) ==
     /\ ndata' = ndata + 1
     /\ inq' = Append(inq, [t |-> "data", cmd |-> "", id |-> dblk.id, st |-> 0, vals |-> v])
     /\ Emit([E0 EXCEPT !.e = "emit", !.id = dblk.id, !.vals = v])
-    /\ UNCHANGED <<rate, haskalman, script, pc, op, excbody, rres, si, bid, ladded, pendstart, vals, window, syncq,
+    /\ UNCHANGED <<slock, lccf, rate, haskalman, script, pc, op, excbody, rres, si, bid, ladded, pendstart, vals, window, syncq,
                    pq, pinfl, t1, now, dblk, link>>
 
 \* link error: link closed, cf.link = None, disconnected callbacks (SyncLogger: DISCONNECT_EVENT when its
@@ -267,8 +292,9 @@ LinkDrop ==
     /\ link' = "down" /\ pq' = <<>> /\ pinfl' = FALSE
     /\ syncq' = IF Mode = "estimator" /\ pc \in {"send", "loop", "stop", "delete"} THEN Append(syncq, DISC) ELSE syncq
     /\ pendstart' = FALSE /\ ladded' = (ladded \/ pendstart)      \* a START under way is lost with the link
+    /\ slock' = "free"
     /\ Emit([E0 EXCEPT !.e = "down"])
-    /\ UNCHANGED <<rate, haskalman, script, pc, op, excbody, rres, si, bid, vals, window, t1, now,
+    /\ UNCHANGED <<lccf, rate, haskalman, script, pc, op, excbody, rres, si, bid, vals, window, t1, now,
                    dblk, inq, ndata>>
 
 \* ---- next-state relation ------------------------------------------------------------------
